@@ -14,6 +14,7 @@ META = {
     'not_decided': ['equality of results with a definitional evaluation for all programs (values of variables, output text, error position, '
                     'composition of features)'],
 }
+META['explanation'] += " R01.11 the jump placeholder is only written, never compared (a legal program is not refused for where its code lands). R01.12 the parser's binding-power table (shared with R07.1). R01.13 the frame size counts every parameter and local (shared with R02.6)."
 
 ORACLE = {'+': '+', '-': '-', '*': '*', '/': '/', '%': '%', '<': '<', '<=': '<=', '>': '>', '>=': '>=', '==': '==', '!=': '!=', '&&': '&&', '||': '||'}
 MIRROR = {'+': '+', '*': '*', '==': '==', '!=': '!=', '<': '>', '>': '<', '<=': '>=', '>=': '<='}
